@@ -5,6 +5,8 @@ CONSTANTS MaxLen, Colours
 N0 == <<>>
 N1 == <<[msg |-> 2, span |-> "none"]>>
 N2 == <<[msg |-> 3, span |-> "single"], [msg |-> 1, span |-> "multi"]>>
+\* three notes that say the same about three different places: each is a note of its own
+N3 == <<[msg |-> 2, span |-> "single"], [msg |-> 2, span |-> "multi"], [msg |-> 2, span |-> "none"]>>
 \* ten shapes: error / lint x span x notes x message
 Shapes == {
   [kind |-> "error", code |-> "E002", msg |-> 1, span |-> "none",   notes |-> N0],
@@ -16,7 +18,7 @@ Shapes == {
   [kind |-> "lint",  code |-> "MalformedDocComment", msg |-> 3, span |-> "multi",  notes |-> N0],
   [kind |-> "lint",  code |-> "IncorrectDocComment", msg |-> 5, span |-> "single", notes |-> N2],
   [kind |-> "lint",  code |-> "DuplicateFile",       msg |-> 4, span |-> "none",   notes |-> N0],
-  [kind |-> "lint",  code |-> "Deprecated",          msg |-> 5, span |-> "multi",  notes |-> N2]
+  [kind |-> "lint",  code |-> "Deprecated",          msg |-> 5, span |-> "multi",  notes |-> N3]
 }
 Lists == UNION {[1..m -> Shapes] : m \in 0..MaxLen}
 Allows == {{}, {"All"}, {"Deprecated"}, {"BrokenDocLink", "DuplicateFile"}}
